@@ -8,6 +8,14 @@
 //	                        checkVar here (impl line) and by C39.checkVar in Lean
 //	                        (model line); the oracle fails when the obligation
 //	                        does not hold for the variable.
+//	cta <var>               the regenerated check-then-act table of the module
+//	                        table (harness/c39/cta.go: every keyed write of
+//	                        Evaler.modules with the lookup that guards it and the
+//	                        critical sections of both) with the obligation
+//	                        ctaCheck — test-and-set inside ONE critical section on
+//	                        every path from `use` — evaluated by the Go twin and
+//	                        by C39.ctaCheck in Lean; the oracle fails unless the
+//	                        verdict is `tas`.
 //	dyn <mode> <procs> <goroutine>…
 //	                        2..8 goroutines run generated programs on ONE real
 //	                        Evaler in a child process built with the race
@@ -51,6 +59,7 @@ func init() {
 
 const rule = "static: one op per shared variable (every field of eval.Evaler, Ns.slots, the pointee of vars.PtrVar) carrying " +
 	"ALL its access sites regenerated from $VERIF_REPO by harness/c39/extract.go (exhaustive over the source); " +
+	"cta: one op carrying every keyed write of Evaler.modules with its guarding lookup and critical sections (harness/c39/cta.go); " +
 	"dyn: fixed families (2..8 goroutines importing the same / different / nested / circular / bundled modules, del of globals, " +
 	"Call, Check) plus random programs over the DSL of harness/c39/dsl.go (Eval on the shared and on private global namespaces, Call, Check; " +
 	"peach, run-parallel and pipelines inside; counters, flags, private variables, module imports), each run in a child process " +
@@ -157,6 +166,43 @@ func runStatic(repo string, allow []AllowEntry, v string) opResult {
 		}
 		res.Detail = fmt.Sprintf("%s: no mutex is held at every access and it is written after construction; sites without %s: %s",
 			v, facts.Locks[0], strings.Join(un, ", "))
+	}
+	return res
+}
+
+// runCta evaluates the check-then-act obligation on the regenerated table.
+func runCta(repo, v string) opResult {
+	if v != "Evaler.modules" {
+		return opResult{Op: "cta\t" + v, Impl: "bad-op", Class: "bad-op", Detail: "cta is defined for Evaler.modules only"}
+	}
+	tbl, err := ExtractCta(repo)
+	if err != nil {
+		return opResult{Op: "cta\t" + v, Impl: "extract-error", Class: "extractor-error", Detail: err.Error(), Tag: "cta-error"}
+	}
+	fields := []string{"cta", v}
+	for _, e := range tbl {
+		fields = append(fields, e.Encode())
+	}
+	verdict := ctaCheck(tbl)
+	res := opResult{Op: strings.Join(fields, "\t"), Impl: verdict, Tag: "cta-" + strings.Fields(verdict)[0]}
+	switch {
+	case verdict == "tas":
+	case verdict == "no-insert":
+		res.Class = "extractor-error"
+		res.Detail = "no insertion into Evaler.modules is reachable from `use`: the extractor has lost track of the code"
+	default:
+		res.Class = "modules-check-then-act"
+		var bad []string
+		for _, e := range tbl {
+			if e.Reach && !e.Init && !e.atomic() {
+				g := "no guarding lookup"
+				if e.Guard != "-" {
+					g = fmt.Sprintf("lookup %s in critical section %d", e.Guard, e.GSec)
+				}
+				bad = append(bad, fmt.Sprintf("%s (critical section %d; %s)", e.Name, e.Sec, g))
+			}
+		}
+		res.Detail = "the module table is written on a path from `use` outside a test-and-set (lookup and dependent write are not in one exclusive critical section of Evaler.mu), so two goroutines can both install a module: " + strings.Join(bad, "; ")
 	}
 	return res
 }
@@ -496,7 +542,12 @@ func dynTag(f []string) string {
 		tags = append(tags, "private-ns")
 	}
 	if len(tags) == 0 {
-		return "plain-eval"
+		tags = append(tags, "plain-eval")
+	}
+	// the class of C39_serialisable_commutative (world of the harness: nothing
+	// preloaded, so no read of $m:x)
+	if !has("g") && !has("h") {
+		tags = append(tags, "class")
 	}
 	return strings.Join(tags, "+")
 }
@@ -541,7 +592,7 @@ func run(c *common.Ctx) error {
 		for _, l := range strings.Split(string(data), "\n") {
 			if l != "" && !strings.HasPrefix(l, "#") {
 				f := strings.Split(l, "\t")
-				if f[0] == "static" && len(f) > 2 {
+				if (f[0] == "static" || f[0] == "cta") && len(f) > 2 {
 					l = f[0] + "\t" + f[1] // the table is regenerated
 				}
 				specs = append(specs, l)
@@ -561,6 +612,7 @@ func run(c *common.Ctx) error {
 		for _, v := range facts.Vars {
 			specs = append(specs, "static\t"+v)
 		}
+		specs = append(specs, "cta\tEvaler.modules")
 		if c.Corpus != "" {
 			if err := addFile(c.Corpus); err != nil {
 				return err
@@ -623,6 +675,12 @@ func run(c *common.Ctx) error {
 				results[i] = opResult{Op: s, Impl: "bad-op", Class: "bad-op"}
 			} else {
 				results[i] = runStatic(repo, allow, f[1])
+			}
+		case "cta":
+			if len(f) < 2 {
+				results[i] = opResult{Op: s, Impl: "bad-op", Class: "bad-op"}
+			} else {
+				results[i] = runCta(repo, f[1])
 			}
 		case "dyn":
 			jobs <- i
